@@ -154,8 +154,24 @@ def run(ctx):
         it_var is not None and any(isinstance(x, ast.Name) and x.id == it_var for x in ast.walk(n.iter))))), None)
     if rloop is None:
         raise AnalysisError("R16.2: record loop not found in main")
-    jumps = [n for n in ast.walk(rloop) if isinstance(n, (ast.Continue, ast.Break, ast.Return)) and not _in_nested_loop(n, rloop)]
-    ctx.check(not jumps, "R16.2", "main:loop:no-skips", f"the record loop contains {type(jumps[0]).__name__ if jumps else ''}: selected records can be dropped", rloop, "no continue/break/return")
+    jumps = [n for n in ast.walk(rloop) if isinstance(n, (ast.Break, ast.Return)) and not _in_nested_loop(n, rloop)]
+    # a `continue` drops a record only if it can be reached, without --list, on a path that has not passed a write (or the loop over the
+    # record's timestamp expansions, which writes each of them)
+    from .. import logic as _lg16
+    mcfg = CFG(main)
+    wr_nodes = set()
+    for w_ in [w0 for w0 in ast.walk(rloop) if isinstance(w0, ast.Call) and norm(w0.func) == "record_writer.write"]:
+        nd_ = mcfg.node_of(w_)
+        if nd_ is not None:
+            wr_nodes.add(nd_.id)
+        lp_ = _enclosing_for(w_, rloop)
+        if lp_ is not None and lp_ is not rloop and mcfg.node_of(lp_) is not None:
+            wr_nodes.add(mcfg.node_of(lp_).id)
+    first_ = mcfg.node_of(rloop.body[0])
+    reach_ = _lg16.reachable_assuming(mcfg, first_.id, lambda a: False if a == "args.list" else None, avoid=lambda nd: nd.id in wr_nodes) if first_ is not None else set()
+    jumps += [n for n in ast.walk(rloop) if isinstance(n, ast.Continue) and not _in_nested_loop(n, rloop) and (mcfg.node_of(n) is None or mcfg.node_of(n).id in reach_)]
+    ctx.check(not jumps, "R16.2", "main:loop:no-skips", f"the record loop contains a {type(jumps[0]).__name__ if jumps else ''} that a selected record can reach before it was written: selected "
+              "records can be dropped", rloop, "no break/return; continue only after the record was written or listed")
     writes = [w for w in ast.walk(rloop) if isinstance(w, ast.Call) and norm(w.func) == "record_writer.write"]
     ctx.floor("R16.2", "record_writer.write sites in the loop", len(writes), 2)
     rec_var = None
@@ -175,8 +191,15 @@ def run(ctx):
                 "iter_timestamped_records" in norm(_enclosing_for(w, rloop).iter) and norm(_enclosing_for(w, rloop).iter.args[0]) == rec_var]
     ctx.check(len(direct) == 1 and len(expanded) == 1, "R16.2", "main:write:operands", "the loop does not write the record itself / each element of iter_timestamped_records(rec)", rloop,
               "write(rec) or write(each timestamp expansion of rec)")
-    rew = [a for a in ast.walk(rloop) if isinstance(a, ast.Assign) and norm(a.targets[0]) == rec_var and "record_field_rewriter.rewrite" in norm(a.value)]
-    ctx.check(len(rew) == 1 and norm(rew[0].value.args[0]) == rec_var and enclosing_conditions(rew[0], rloop) == [("record_field_rewriter", True)], "R16.2", "main:rewrite-after-slice",
+    # `rewrite = record_field_rewriter.rewrite if record_field_rewriter else None` bound before the loop is the rewriter's method where there is a
+    # rewriter and falsy where there is none: calling it under its own truth is calling record_field_rewriter.rewrite under record_field_rewriter
+    from ..core import single_assign_aliases as _saa16
+    rw_alias = {k for k, v in _saa16(main).items() if isinstance(v, ast.IfExp) and norm(v.test) == "record_field_rewriter" and norm(v.body) == "record_field_rewriter.rewrite"
+                and isinstance(v.orelse, ast.Constant) and not v.orelse.value}
+    rew = [a for a in ast.walk(rloop) if isinstance(a, ast.Assign) and norm(a.targets[0]) == rec_var and isinstance(a.value, ast.Call)
+           and (norm(a.value.func) == "record_field_rewriter.rewrite" or norm(a.value.func) in rw_alias)]
+    ctx.check(len(rew) == 1 and len(rew[0].value.args) == 1 and norm(rew[0].value.args[0]) == rec_var
+              and enclosing_conditions(rew[0], rloop) in [[("record_field_rewriter", True)]] + [[(k, True)] for k in rw_alias if norm(rew[0].value.func) == k], "R16.2", "main:rewrite-after-slice",
               "projection is not applied to each sliced record (rec = rewriter.rewrite(rec))", rloop, "rewriter applied inside the loop over the sliced iterator")
     for attr, opt in (("_source", "args.record_source"), ("_classification", "args.record_classification")):
         sets = [a for a in ast.walk(rloop) if isinstance(a, ast.Assign) and norm(a.targets[0]) == f"{rec_var}.{attr}"]
